@@ -138,7 +138,8 @@ def generate(seed: int, tier: str, phase: str) -> Dict[str, Any]:
         k = r.choice(kinds)
         op: Dict[str, Any] = {"op": k}
         if k == "call":
-            op.update(j=r.randrange(8), k=r.randrange(3), gseed=r.randrange(4), bwd=r.random() < 0.8)
+            op.update(j=r.randrange(8), k=r.randrange(3), gseed=r.randrange(4), bwd=r.random() < 0.8,
+                      nograd=r.random() < 0.15)
         elif k == "bad_call":
             op.update(j=r.randrange(8))
         elif k == "fleet":
@@ -320,15 +321,16 @@ def _programs(plan: Dict[str, Any], res: Dict[str, Any], log: Any, prf: Any, pro
 
     def compare(fn: Any, holder: Any, k: int, gseed: int, bwd_: bool, where: str, first: Dict[Any, str],
                 the_ref: Any, the_inputs: Any, is_lossless: bool, the_plain: Any, sig: str,
-                shared: bool = False) -> None:
+                shared: bool = False, nograd: bool = False) -> None:
         prf.take_log()
         try:
-            got = tw.run(fn, holder, tw.clone_inputs(the_inputs[k]), gseed, backward=bwd_)
+            got = tw.run(fn, holder, tw.clone_inputs(the_inputs[k]), gseed, backward=bwd_, no_grad=nograd)
         except Exception as e:
             raise Violation("runs_after_rewrite", _culprit_for_exception(e, sig),
                             f"{type(e).__name__}: {str(e)[:500]} {where} program {sig}")
         la = sorted(prf.take_log())
-        want = tw.run(lambda *xs: the_ref.run(holder, xs), holder, tw.clone_inputs(the_inputs[k]), gseed, backward=bwd_)
+        want = tw.run(lambda *xs: the_ref.run(holder, xs), holder, tw.clone_inputs(the_inputs[k]), gseed, backward=bwd_,
+                      no_grad=nograd)
         lb = sorted(prf.take_log())
         d = tw.diff(got, want)
         if d:
@@ -337,7 +339,8 @@ def _programs(plan: Dict[str, Any], res: Dict[str, Any], log: Any, prf: Any, pro
             raise Violation("equals_hand_quantised", "random_requests_differ",
                             f"module {la[:3]}..({len(la)}) reference {lb[:3]}..({len(lb)}) {where}")
         if is_lossless:
-            base = tw.run(lambda *xs: the_plain.run(holder, xs), holder, tw.clone_inputs(the_inputs[k]), gseed, backward=bwd_)
+            base = tw.run(lambda *xs: the_plain.run(holder, xs), holder, tw.clone_inputs(the_inputs[k]), gseed, backward=bwd_,
+                          no_grad=nograd)
             d = tw.diff({"outs": got["outs"]}, {"outs": base["outs"]})
             if d:
                 raise Violation("lossless_is_identity", "differs_from_original", f"{d} {where}")
@@ -353,7 +356,9 @@ def _programs(plan: Dict[str, Any], res: Dict[str, Any], log: Any, prf: Any, pro
                                               f"{d} {where} program {sig}"))
             probe("lossless_compared")
         dg = tw.result_digest(got)
-        key = (k, gseed, bwd_)
+        key = (k, gseed, bwd_, nograd)
+        if nograd:
+            probe("calls_under_no_grad")
         if key in first and first[key] != dg:
             raise Violation("repeatable", "result_changed_between_calls", where)
         first.setdefault(key, dg)
@@ -455,7 +460,7 @@ def _programs(plan: Dict[str, Any], res: Dict[str, Any], log: Any, prf: Any, pro
         elif k == "call":
             w = mods[op["j"] % len(mods)]
             compare(w["mod"], w["mod"], op["k"], op["gseed"], op["bwd"], where, w["first"], w["ref"], w["inputs"],
-                    w["lossless"], w["plain"], w["sig"])
+                    w["lossless"], w["plain"], w["sig"], nograd=bool(op.get("nograd")))
         elif k == "reset":
             torch._dynamo.reset()
             fault("dynamo.reset", True)
